@@ -863,6 +863,13 @@ func checkC05(c *core.Ctx) {
 			}
 			return t
 		}},
+		{"hugespread", func(s []int) *ref.T { // 2e154 +- 2e150: the squares of the VALUES overflow, the squared deviations (4e300) do not
+			t := enum.Generic(s, 60, 0.1, 1, true)
+			for i := range t.V {
+				t.V[i] = 2e154 + 2e150*t.V[i]
+			}
+			return t
+		}},
 		{"tie", func(s []int) *ref.T {
 			t := enum.Generic(s, 54, 0.5, 3, true)
 			if len(t.V) >= 2 {
@@ -880,7 +887,7 @@ func checkC05(c *core.Ctx) {
 	nBase05 := len(base05)
 	for si, s := range append(base05, sweepShapes05(c.Thorough())...) {
 		for _, md := range modes {
-			if si >= nBase05 && md.name != "generic" && md.name != "ascending" && md.name != "two-valued" && md.name != "tie" {
+			if si >= nBase05 && md.name != "generic" && md.name != "ascending" && md.name != "two-valued" && md.name != "tie" && md.name != "hugespread" {
 				continue // length sweep (see checks_sweep.go): four value modes
 			}
 			s, md := s, md
@@ -890,8 +897,8 @@ func checkC05(c *core.Ctx) {
 				for _, k := range kinds {
 					exp := ref.Stat(k, x.V)
 					got := global(rx, k)
-					if md.name == "hugecancel" && (math.IsInf(exp, 0) || math.IsNaN(exp)) {
-						continue // the defined statistic itself is not finite (squares overflow)
+					if math.IsInf(exp, 0) || math.IsNaN(exp) {
+						continue // the defined statistic itself is not finite
 					}
 					if tol := statTol(k, smallPart(md.name, x.V), exp); math.IsNaN(got) || math.Abs(got-exp) > tol {
 						return core.Fail("%s() of %v = %v, expected %v (tolerance %.3g)", k, shortT(x), got, exp, tol)
@@ -920,7 +927,7 @@ func checkC05(c *core.Ctx) {
 							for i, o := range offs {
 								buf[i] = x.V[o]
 							}
-							if md.name == "hugecancel" && (math.IsInf(exp.V[ro], 0) || math.IsNaN(exp.V[ro])) {
+							if math.IsInf(exp.V[ro], 0) || math.IsNaN(exp.V[ro]) {
 								return
 							}
 							if tol := statTol(ref.StatKind(k), smallPart(md.name, buf), exp.V[ro]); bad == "" && (math.IsNaN(g.V[ro]) || math.Abs(g.V[ro]-exp.V[ro]) > tol) {
